@@ -533,6 +533,17 @@ def _membership_literals(prog, c, pname, depth=0):
     args = c.get("args", [])
     if nm == "std::any_of" and len(args) == 3:
         lam = ir.unwrap(args[2])
+        # the closure may have a name: `const auto is_word = [&](..){..}; any_of(b, e, is_word)` passes a copy of that local
+        for _ in range(3):
+            if isinstance(lam, dict) and lam.get("k") in ("construct", "cast") and (lam.get("e") is not None or len(lam.get("args", [])) == 1):
+                lam = ir.unwrap(lam.get("e") if lam.get("e") is not None else lam["args"][0])
+            elif isinstance(lam, dict) and lam.get("k") == "ref" and str(lam.get("decl", "")).startswith("local:") and _SCOPE:
+                ds = [v for _, _, e0 in _SCOPE[0].roots() if e0["expr"].get("k") == "decl" for v in e0["expr"].get("vars", []) if v["name"] == lam["decl"][6:] and v.get("init") is not None]
+                if len(ds) != 1:
+                    return None
+                lam = ir.unwrap(ds[0]["init"])
+            else:
+                break
         if not (isinstance(lam, dict) and lam.get("k") == "lambda"):
             return None
         body = prog.fn((lam.get("bodies") or [lam.get("id")])[0])
